@@ -13,6 +13,7 @@ CONSTANTS
   SeqSessions = FALSE
   StaleStart = TRUE
   Careless = FALSE
+  Mixed = TRUE
   AliasHosts <- MCNoAlias
   CliHosts <- MCCliAll
   Verifiers <- MCVerifiersS
@@ -21,5 +22,5 @@ INIT Init
 NEXT Next
 VIEW View
 CONSTRAINT Bound
-INVARIANTS TypeOK TokensProven ClientReports KindsSeparate CacheProven
+INVARIANTS TypeOK TokensProven ClientReports KindsSeparate CacheProven TokensDated
 PROPERTIES ServerReports BearerReports Integrity ClientOpReports TokReports
